@@ -99,8 +99,9 @@ theorem C11_isInteger_spec (s : List Char) : isInteger s = true ↔ IntLang s :=
 theorem C11_isInteger_spec_flag (s : List Char) : isInteger s = true ↔ IntLangOf intLoneSignRejected s :=
   isInteger_iff_flag s
 
-/-- `CoreParser::toIndex` accepts exactly `ws* d+ ws*` and the value is the digit string read in base 10 -/
-theorem C11_toIndex_spec (s : List Char) (v : Nat) : toIndex s = some v ↔ IndexLang s v := toIndex_iff s v
+/-- `CoreParser::toIndex` accepts exactly `ws* d+ ws*` whose value `atof` keeps finite (`toDouble` demands
+    `std::isfinite` since 425dbdc: below `dblOverflow = 2^1024 - 2^970`), and the value is the digit string read in base 10 -/
+theorem C11_toIndex_spec (s : List Char) (v : Nat) : toIndex s = some v ↔ IndexLang s v ∧ v < dblOverflow := toIndex_iff s v
 
 /-! ### cov-mat element accounting
 
@@ -113,7 +114,7 @@ theorem C11_toIndex_spec (s : List Char) (v : Nat) : toIndex s = some v ↔ Inde
 theorem C11_cov_count (dim band : Nat) (text : List Char) (ps : List (Nat × Nat))
     (h : finishCov dim band text = .ok ps) :
     (words text).length = covElements dim band ∧ ps.length = covElements dim band ∧
-    (∀ w ∈ words text, isFloat w = true) ∧ ∀ q ∈ ps, q.1 ≤ q.2 ∧ q.2 ≤ q.1 + band :=
+    (∀ w ∈ words text, toDoubleOk w = true) ∧ ∀ q ∈ ps, q.1 ≤ q.2 ∧ q.2 ≤ q.1 + band :=
   fill_ok dim band (words text) _ (1, 1) ps ⟨Nat.le_refl _, Nat.le_add_right _ _⟩ h
 
 /-- the writes of an accepted text stay inside the matrix and its band, are pairwise distinct and are EXACTLY the
@@ -121,7 +122,7 @@ theorem C11_cov_count (dim band : Nat) (text : List Char) (ps : List (Nat × Nat
 theorem C11_cov_fill_in_bounds (dim band : Nat) (text : List Char) (ps : List (Nat × Nat)) (hb : band < dim)
     (h : finishCov dim band text = .ok ps) :
     (words text).length = covElements dim band ∧ ps.length = covElements dim band ∧
-    (∀ w ∈ words text, isFloat w = true) ∧
+    (∀ w ∈ words text, toDoubleOk w = true) ∧
     (∀ q ∈ ps, 1 ≤ q.1 ∧ q.1 ≤ q.2 ∧ q.2 ≤ dim ∧ q.2 ≤ q.1 + band) ∧
     ps.Nodup ∧
     ps = (List.range dim).flatMap (fun r =>
@@ -156,7 +157,7 @@ theorem C11_cov_linear_index (dim band : Nat) (text : List Char) (ps : List (Nat
 /-- acceptance is exactly "`covElements` blank-separated words, all numbers" -/
 theorem C11_cov_accept_iff (dim band : Nat) (text : List Char) :
     (∃ ps, finishCov dim band text = .ok ps) ↔
-      ((words text).length = covElements dim band ∧ ∀ w ∈ words text, isFloat w = true) :=
+      ((words text).length = covElements dim band ∧ ∀ w ∈ words text, toDoubleOk w = true) :=
   ⟨fun ⟨ps, h⟩ => ⟨((fill_ok_iff dim band _ _ _ ps).mp h).1, ((fill_ok_iff dim band _ _ _ ps).mp h).2.1⟩,
    fun ⟨h1, h2⟩ => finishCov_complete dim band text h1 h2⟩
 
@@ -166,7 +167,7 @@ theorem C11_cov_accept_iff (dim band : Nat) (text : List Char) :
 theorem C11_cov_surplus_refused (dim band : Nat) (text : List Char)
     (hlen : covElements dim band < (words text).length) :
     (∀ ps, finishCov dim band text ≠ .ok ps) ∧
-    ((∀ w ∈ (words text).take (covElements dim band), isFloat w = true) →
+    ((∀ w ∈ (words text).take (covElements dim band), toDoubleOk w = true) →
       finishCov dim band text = .error .too_many) :=
   ⟨fun ps => fill_surplus_not_ok dim band _ _ _ ps hlen, fun hf => fill_too_many dim band _ _ _ hlen hf⟩
 
@@ -271,7 +272,8 @@ example : IndexLang " 012 ".toList 12 :=
   ⟨[' '], ['0', '1', '2'], [' '], by decide, by unfold AllSpace; decide, by unfold AllSpace; decide,
    by unfold AllDigit; decide, by decide, by decide⟩
 example : ¬ IndexLang "+1".toList 1 ∧ ¬ IndexLang " 012 ".toList 13 :=
-  ⟨fun h => absurd ((C11_toIndex_spec _ _).mpr h) (by decide), fun h => absurd ((C11_toIndex_spec _ _).mpr h) (by decide)⟩
+  ⟨fun h => absurd ((C11_toIndex_spec _ _).mpr ⟨h, by decide⟩) (by decide),
+   fun h => absurd ((C11_toIndex_spec _ _).mpr ⟨h, by decide⟩) (by decide)⟩
 example : deg2gonAccepts "10-20-30.5".toList = true ∧ deg2gonAccepts "-+5-10-20".toList = true ∧
     deg2gonAccepts "1-2".toList = false ∧ deg2gonAccepts "1-2-.5".toList = false := by decide
 
@@ -292,10 +294,19 @@ example : (1 : Nat) < 3 ∧ (finishCov 3 1 " 1 2 3 4 5 ".toList).toOption = some
 example : covElements 2 3 = 2 ∧ ((List.range 2).map (fun r => min 2 (r + 1 + 3) - r)).sum = 3 := by decide
 /-- hypothesis of `C11_cov_surplus_refused`: six words for five entries; the sixth is not even looked at -/
 example : covElements 3 1 < (words "1 2 3 4 5 x".toList).length ∧
-    (∀ w ∈ (words "1 2 3 4 5 x".toList).take (covElements 3 1), isFloat w = true) ∧
+    (∀ w ∈ (words "1 2 3 4 5 x".toList).take (covElements 3 1), toDoubleOk w = true) ∧
     verdict "3".toList "1".toList "1 2 3 4 5 x".toList = .too_many ∧
     verdict "3".toList "1".toList "1 2 x 4 5 6".toList = .bad_element := by decide
 /-- hypothesis of `C11_cov_verdict_in_bounds` -/
 example : verdict " 3 ".toList "1".toList " 1 2 3 4 5 ".toList = .ok := by decide
+
+/-- `CoreParser::toDouble` = `IsFloat` and `std::isfinite(atof)`: literals that overflow to infinity are refused, in
+    attributes and as `<cov-mat>` elements (the border is DBL_MAX + ulp/2, exactly) -/
+example : toDoubleOk "1e999".toList = false ∧ toDoubleOk "-1E+400".toList = false ∧ toDoubleOk "1.7976931348623158e308".toList = true ∧
+    toDoubleOk "1.7976931348623159e308".toList = false ∧ toDoubleOk "0e999".toList = true ∧ toDoubleOk "1e-999".toList = true ∧
+    toDoubleOk "1e".toList = false := by decide +kernel
+example : verdict "1".toList "0".toList "1e999".toList = .bad_element ∧ verdict "1".toList "0".toList "1e30".toList = .ok ∧
+    toIndex (List.replicate 400 '9') = none := by decide +kernel
+example : dblOverflow = 2 ^ 1024 - 2 ^ 970 := dblOverflow_eq
 
 end Gama.Props.C11
